@@ -253,6 +253,46 @@ def infer_no_memory(ctx: Ctx, repo: Repo, rule: str) -> None:
                 ctx.check(got == want, rule, gt.fq,
                           "the type inferred for a value depends on that value as it is now, not on values inferred earlier in the process",
                           construct=f"{what} ({lab}): second call gives {str(got)[:110]}, a fresh process gives {str(want)[:110]}")
+    # a first call that FAILS while an element is being typed (a value nested too deeply: RecursionError - contained by the tracer),
+    # then the same container object again: whatever the first call had noted about the container must be gone
+    for what, v in (("a list", IM.val("builtin:list", "F#1", n=2)), ("a set", IM.val("builtin:set", "F#2", n=2)), ("a dict", IM.val("builtin:dict", "F#3", n=2, keykind="mixed")),
+                    ("a defaultdict", IM.val("mod:collections.defaultdict", "F#4", n=1)), ("a tuple", IM.val("builtin:tuple", "F#5", n=2))):
+        for limit in (0, 2):
+            want = IM.InferScenario(repo, "get_type", all_str=False, any_str=True).result({ps[0]: v, ps[1]: K(limit)})
+            s1 = IM.InferScenario(repo, "get_type", all_str=False, any_str=True)
+            s1.fail_nested = "RecursionError"  # type: ignore[attr-defined]
+            st_f = State()
+            outs_f = s1.run({ps[0]: v, ps[1]: K(limit)}, carry=st_f)
+            if len(outs_f) != 1:
+                raise AnalysisError(f"get_type: {len(outs_f)} outcomes with a failing element")
+            first = outs_f[0]
+            failed = first.term is not None and first.term[0] == "raise"
+            first.term = None
+            first.pending = None
+            got = IM.InferScenario(repo, "get_type", all_str=False, any_str=True).result({ps[0]: v, ps[1]: K(limit)}, carry=first)
+            n += 1
+            ctx.check(got == want, rule, gt.fq,
+                      "a failed inference leaves nothing behind: the next inference of the same object gives what a fresh process gives",
+                      construct=f"{what} whose element could not be typed ({'the first call raised RecursionError' if failed else 'the first call did not fail'}), then the same object again (limit {limit}): "
+                                f"{str(got)[:110]}, a fresh process gives {str(want)[:110]}")
+    # concrete values that COMPARE EQUAL (and hash alike) although their elements have different classes: a memo keyed by the value
+    # (functools.lru_cache on a helper that takes the tuple) answers the second with the first one's type
+    from . import concrete_infer as CI
+    eq_pairs = [("(1, 0) then (True, False)", CI.tup("t1", K(1), K(0)), CI.tup("t2", K(True), K(False))),
+                ("(True, False) then (1.0, 0.0)", CI.tup("t3", K(True), K(False)), CI.tup("t4", K(1.0), K(0.0))),
+                ("[(1, 0)] then [(1.0, 0.0)] (the tuples inside lists)", CI.lst("l1", CI.tup("t5", K(1), K(0))), CI.lst("l2", CI.tup("t6", K(1.0), K(0.0))))]
+    for what, v1, v2 in eq_pairs:
+        for limit in (0, 2):
+            want = CI.infer(repo, v2, limit)
+            s1 = CI.ConcreteInfer(repo, "get_type")
+            st1 = State()
+            s1.result({ps[0]: v1, ps[1]: K(limit)}, carry=st1)
+            s2 = CI.ConcreteInfer(repo, "get_type")
+            got = s2.result({ps[0]: v2, ps[1]: K(limit)}, carry=s1.last_state)
+            n += 1
+            ctx.check(got == want, rule, gt.fq,
+                      "the type inferred for a value depends on that value as it is now, not on an EQUAL value inferred earlier (1 == 1.0 == True, and so are tuples of them)",
+                      construct=f"{what} (limit {limit}): second call gives {CI.short(got)}, a fresh process gives {CI.short(want)}")
     ctx.floor(rule, "two-call inference histories", n, 18)
 
 
